@@ -218,6 +218,8 @@ def splitTarget (t : Bytes) : Bytes × Option Bytes :=
 /-- Framing field: `nb`, `cl` or `ch:<splits>:<exts>:<lastext>:<trailers>`. -/
 structure Framing where
   chunked : Bool
+  /-- the generator meant this chunked coding to be broken (`bc`) -/
+  broken : Bool := false
   splits : List Nat := []
   exts : List Bytes := []
   lastExt : Bytes := []
@@ -228,6 +230,7 @@ def parseList (s : String) (f : String → Option α) : Option (List α) :=
 
 def parseFraming (s : String) : Option Framing :=
   if s = "nb" || s = "cl" then some { chunked := false } else
+  if s = "bc" then some { chunked := true, broken := true } else
   match s.splitOn ":" with
   | ["ch", sp, ex, le, tr] => do
     let splits ← parseList sp (·.toNat?)
